@@ -278,6 +278,59 @@ func n11Hostile(t *testing.T, kind int, when int) (desc string) {
 	return desc
 }
 
+// n11During: a Log call lands exactly before file-system step k of a maintenance run (before the temp file is created,
+// before its sync, close or rename - while the bytes are being written the log is locked, so a call arriving then
+// proceeds right before the sync). Nothing else happens afterwards; the process shuts down cleanly (shutdown snapshot)
+// and starts again: the entry must be there. Returns the number of steps of the run, "" or what is wrong.
+func n11During(t *testing.T, k int) (steps int, desc string) {
+	synctest.Test(t, func(t *testing.T) {
+		fsys := vfs.NewFS()
+		vfs.Install(fsys)
+		defer vfs.Install(nil)
+		l, err := n11New(n11Path)
+		if err != nil {
+			panic(err)
+		}
+		stopc := make(chan struct{})
+		done := make(chan struct{})
+		go func() { l.Maintenance(50*time.Second, n11Path, stopc, nil); close(done) }()
+		l.Log(c10Keys[0].r, c10Keys[0].gk, []uint64{1}, nil, nil, 0)
+		time.Sleep(51 * time.Second) // first maintenance run
+		synctest.Wait()
+		l.Log(c10Keys[1].r, c10Keys[1].gk, []uint64{2}, nil, nil, 0)
+		base := len(fsys.Log)
+		landed := false
+		fsys.Before = func(idx int, op vfs.Op) {
+			if idx-base == k && !landed && op.Kind != "write" {
+				landed = true
+				if err := l.Log(&pb.Receiver{GroupName: "r7", Integration: "webhook", Idx: 0}, "{}:{g=\"during\"}", []uint64{3}, nil, nil, 0); err != nil {
+					panic(err)
+				}
+			}
+		}
+		time.Sleep(50 * time.Second) // second maintenance run, with the Log in the middle of it
+		synctest.Wait()
+		steps = len(fsys.Log) - base
+		fsys.Before = nil
+		time.Sleep(5 * time.Second) // a quiet system
+		close(stopc)
+		<-done
+		if !landed {
+			return
+		}
+		want := n11Dump(l)
+		l2, err := n11New(n11Path)
+		if err != nil {
+			desc = fmt.Sprintf("the next start refuses the snapshot: %v", err)
+			return
+		}
+		if got := n11Dump(l2); got != want {
+			desc = fmt.Sprintf("a Log call landed before file-system step %d (%s) of a maintenance run; after a clean shutdown the next start loads a log that differs from the one in memory at shutdown (%d vs %d bytes of dump)", k, fsys.Log[base+k].Kind, len(got), len(want))
+		}
+	})
+	return
+}
+
 func TestVerifC11Nflog(t *testing.T) {
 	shard, nsh := rep.Shard()
 	if rp := rep.ReplaySpec(); rp != nil {
@@ -426,6 +479,16 @@ func TestVerifC11Nflog(t *testing.T) {
 				R.Violate("large-entry-does-not-survive-restart", fmt.Sprintf("group of %d alerts: %s", n, d), map[string]any{"rerun": true, "part": "nflog-loader", "alerts": n})
 			}
 		}
+		for k, n := 0, 1; k < n; k++ {
+			R.Executions++
+			steps, d := n11During(t, k)
+			if steps > n {
+				n = steps
+			}
+			if d != "" {
+				R.Violate("change-during-maintenance-lost-by-clean-restart", d, map[string]any{"rerun": true, "part": "nflog-loader", "step": k})
+			}
+		}
 		for k := range n11HostileKinds {
 			for when := 0; when < 3; when++ {
 				R.Executions++
@@ -436,7 +499,7 @@ func TestVerifC11Nflog(t *testing.T) {
 		}
 		R.Transitions = R.Executions
 		R.Exhaustive = true
-		R.Bound = fmt.Sprintf("every byte prefix of a valid %d-byte snapshot; every byte replaced by 0x00 / 0xff / its complement; entries of 1..50000 alerts through snapshot and restart; %d kinds of entries Log may refuse x 3 snapshot timings", len(snap), len(n11HostileKinds))
+		R.Bound = fmt.Sprintf("every byte prefix of a valid %d-byte snapshot; every byte replaced by 0x00 / 0xff / its complement; entries of 1..50000 alerts through snapshot and restart; %d kinds of entries Log may refuse x 3 snapshot timings; a Log call before every file-system step of a maintenance run, then clean shutdown and restart", len(snap), len(n11HostileKinds))
 		R.Sample(map[string]any{"snapshot_bytes": len(snap)})
 		R.Write()
 	}
